@@ -225,7 +225,7 @@ func runDriver(drv string, schemas []*lib.SchTy, cases []*Case) error {
 // Case.Obs, writes build/gen/status-<run>.json and, when nodeDiff is set, the AssignNode comparison
 // build/gen/nodediff-<run>.json.
 func Run(run string, schemas []*lib.SchTy, cases []*Case, rng *lib.Rng, nodeDiff bool) []BatchStatus {
-	const perBatch = 60
+	const perBatch = 90
 	var status []BatchStatus
 	var diffs []NodeDiff
 	root := filepath.Join("build", "gen", run)
